@@ -47,6 +47,14 @@ def run(ck):
         f_rp = ex.submit(reproducers, ck)
         for f in (f_mc, f_tr, f_rp):
             f.result()
+    # in the composed machine: guest programs that configure the AHB bridge and several DMA channels through the MMIO window
+    # and start transfers (16/32-bit, DSP<->DSP, DSP<->external, three dimensions, unaligned double words), the irq 15
+    # handler, host AHBM calls between slices; every cell written, every external access in order, channel and bridge
+    # state incl. burst FIFOs compared with System.tla (operators of Dma.tla / Ahbm.tla) after every slice
+    from props import sys_common
+    ck.build('sys_rec')
+    sfiles = sys_common.record(ck, ck.pick(6, 16), ck.pick(6, 12), tag='sysdma', mode='dma', seedoff=2100)
+    sys_common.validate(ck, sfiles)
     ck.assumptions += [
         'Dma.tla/Ahbm.tla are a faithful reading of the C13 statement and of dma.md/ahbm.md (reviewed by hand); in '
         'double-word mode an odd size0 is read as ceil(size0/2) double words',
@@ -58,8 +66,10 @@ def run(ck):
         'behaviour (hardware-tested quirks, queue leftovers across transfers) is transcribed as-is and bound by traces',
         'the memory hook sees every SharedMemory access; the recorder also checks that the final memory equals the '
         'initial memory plus the logged writes (memok), so an unlogged write cannot go unnoticed',
-        'TLC, the Json/IOUtils community modules and g++ are trusted; full width is covered by boundary-clustered '
-        'random traces, exhaustive only at the scaled limb base',
+        'TLC, Apalache/Z3, the Json/IOUtils community modules and g++ are trusted; at full width the counter/cursor loop is '
+        'proved equal to the closed form by induction (Apalache, DmaInd.tla: base, digit successor, index, floor and '
+        'offset-form lemmas in both tiers, the step lemma in the thorough tier); the memory side (what is read and '
+        'written at those addresses) is exhaustive at the scaled limb base and sampled at full width by traces',
     ]
 
 
@@ -76,6 +86,12 @@ def model_check(ck):
             a = ex.submit(ck.mc, 'MC_Dma', 'MC_Dma.cfg', workers=w, timeout=900)
             b = ex.submit(ck.mc, 'MC_Dma', 'MC_Dma_ext.cfg', workers=w, timeout=900)
             a.result(), b.result()
+    # full width (all 16-bit sizes and steps, 32-bit cursors), symbolically: the counter/cursor loop walks the closed-form
+    # element sequence, by induction over the ticks (Apalache on DmaInd.tla); TLC compares DmaInd!Step with Dma.tla!Step
+    # for every channel state at the scaled base.  The step lemma takes ~10 minutes: thorough tier.
+    ck.mc('DmaIndSame', 'MC_DmaIndSame.cfg', workers=8, coverage=False, timeout=1800)
+    for inv in ('BaseLemma', 'IndexSucc', 'Floor', 'OffsetForms') + (('StepLemma',) if ck.thorough else ()):
+        ck.apalache('DmaInd', 'DmaInd.cfg', inv, timeout=3400)
     r = ck.mc('MC_Dma', 'MC_Dma_pinned.cfg', workers=2, must_hold=False, coverage=False)
     if r.violated != 'Terminates':
         raise vlib.Infra('the pinned Channel::Tick model no longer shows defect D8 (model drifted): %s' % r.violated)
